@@ -4,5 +4,546 @@ From Quiver Require Import res.Own.
 Import ListNotations.
 Open Scope N_scope.
 
+(* ------------------------------------------------------------------ generalities *)
+
 Lemma run_snoc : forall h e, run (h ++ [e]) = step (run h) e.
 Proof. intros h e. unfold run. rewrite fold_left_app. reflexivity. Qed.
+
+Lemma run_app : forall h1 h2, run (h1 ++ h2) = fold_left step h2 (run h1).
+Proof. intros h1 h2. unfold run. apply fold_left_app. Qed.
+
+Definition keys (m : omap) : list rid := map fst m.
+
+Lemma eqb_refl' : forall r, N.eqb r r = true.
+Proof. intro r. apply N.eqb_refl. Qed.
+
+Lemma lookup_insert_eq : forall r p m, lookup r (insert r p m) = Some p.
+Proof.
+  intros r p m. induction m as [|[r' q] t IH]; cbn [insert lookup].
+  - rewrite N.eqb_refl. reflexivity.
+  - destruct (N.eqb r r') eqn:E; cbn [lookup]; rewrite E; [reflexivity|exact IH].
+Qed.
+
+Lemma lookup_insert_neq : forall r r' p m, r <> r' -> lookup r (insert r' p m) = lookup r m.
+Proof.
+  intros r r' p m Hne. induction m as [|[k q] t IH]; cbn [insert lookup].
+  - destruct (N.eqb r r') eqn:E; [apply N.eqb_eq in E; contradiction|reflexivity].
+  - destruct (N.eqb r' k) eqn:E1; cbn [lookup].
+    + apply N.eqb_eq in E1. subst k.
+      destruct (N.eqb r r') eqn:E; [apply N.eqb_eq in E; contradiction|reflexivity].
+    + destruct (N.eqb r k); [reflexivity|exact IH].
+Qed.
+
+Lemma lookup_remove_eq : forall r m, lookup r (remove r m) = None.
+Proof.
+  intros r m. induction m as [|[k q] t IH]; cbn [remove lookup]; [reflexivity|].
+  destruct (N.eqb r k) eqn:E; [exact IH|]. cbn [lookup]. rewrite E. exact IH.
+Qed.
+
+Lemma lookup_remove_neq : forall r r' m, r <> r' -> lookup r (remove r' m) = lookup r m.
+Proof.
+  intros r r' m Hne. induction m as [|[k q] t IH]; cbn [remove lookup]; [reflexivity|].
+  destruct (N.eqb r' k) eqn:E1.
+  - apply N.eqb_eq in E1. subst k.
+    destruct (N.eqb r r') eqn:E; [apply N.eqb_eq in E; contradiction|exact IH].
+  - cbn [lookup]. destruct (N.eqb r k); [reflexivity|exact IH].
+Qed.
+
+Lemma lookup_in_keys : forall r m, lookup r m <> None <-> In r (keys m).
+Proof.
+  intros r m. induction m as [|[k q] t IH]; cbn [lookup keys map fst In].
+  - split; [intro H; contradiction|intros []].
+  - destruct (N.eqb r k) eqn:E.
+    + apply N.eqb_eq in E. subst k. split; [intros _; left; reflexivity|intros _; discriminate].
+    + apply N.eqb_neq in E. rewrite IH. split; [intro H; right; exact H|intros [H|H]; [congruence|exact H]].
+Qed.
+
+Lemma lookup_none_keys : forall r m, lookup r m = None <-> ~ In r (keys m).
+Proof.
+  intros r m. rewrite <- lookup_in_keys. destruct (lookup r m) as [p|].
+  - split; [discriminate|]. intro H. exfalso. apply H. discriminate.
+  - split; [intros _ H; apply H; reflexivity|reflexivity].
+Qed.
+
+Lemma lookup_some_in : forall r p m, lookup r m = Some p -> In (r, p) m.
+Proof.
+  intros r p m. induction m as [|[k q] t IH]; cbn [lookup]; [discriminate|].
+  destruct (N.eqb r k) eqn:E.
+  - apply N.eqb_eq in E. subst k. intro H. injection H as ->. left. reflexivity.
+  - intro H. right. exact (IH H).
+Qed.
+
+Lemma in_lookup : forall r p m, NoDup (keys m) -> In (r, p) m -> lookup r m = Some p.
+Proof.
+  intros r p m. induction m as [|[k q] t IH]; cbn [keys map fst]; intros Hnd Hin; [destruct Hin|].
+  inversion Hnd as [|? ? Hnotin Hnd']; subst. cbn [lookup]. destruct Hin as [Heq|Hin].
+  - injection Heq as -> ->. rewrite N.eqb_refl. reflexivity.
+  - destruct (N.eqb r k) eqn:E.
+    + apply N.eqb_eq in E. subst k. exfalso. apply Hnotin.
+      change (In (fst (r, p)) (map fst t)). apply in_map. exact Hin.
+    + exact (IH Hnd' Hin).
+Qed.
+
+Lemma keys_insert : forall r p m x, In x (keys (insert r p m)) <-> x = r \/ In x (keys m).
+Proof.
+  intros r p m x. induction m as [|[k q] t IH]; cbn [insert keys map fst In].
+  - split; [intros [H|[]]; left; congruence|intros [H|[]]; left; congruence].
+  - destruct (N.eqb r k) eqn:E; cbn [keys map fst In].
+    + apply N.eqb_eq in E. subst k. split; [intros [H|H]; [left; congruence|right; right; exact H]|
+        intros [H|[H|H]]; [left; congruence|left; exact H|right; exact H]].
+    + fold (keys (insert r p t)). fold (keys t). rewrite IH. tauto.
+Qed.
+
+Lemma nodup_insert : forall r p m, NoDup (keys m) -> NoDup (keys (insert r p m)).
+Proof.
+  intros r p m. induction m as [|[k q] t IH]; cbn [insert keys map fst]; intro Hnd.
+  - constructor; [intros []|constructor].
+  - destruct (N.eqb r k) eqn:E; cbn [keys map fst]; [exact Hnd|].
+    inversion Hnd as [|? ? Hnotin Hnd']; subst. constructor.
+    + fold (keys (insert r p t)). rewrite keys_insert. intros [H|H].
+      * subst k. rewrite N.eqb_refl in E. discriminate.
+      * exact (Hnotin H).
+    + exact (IH Hnd').
+Qed.
+
+Lemma keys_remove_incl : forall r m x, In x (keys (remove r m)) -> In x (keys m).
+Proof.
+  intros r m x. induction m as [|[k q] t IH]; cbn [remove keys map fst In]; [intros []|].
+  destruct (N.eqb r k); cbn [keys map fst In].
+  - intro H. right. exact (IH H).
+  - intros [H|H]; [left; exact H|right; exact (IH H)].
+Qed.
+
+Lemma nodup_remove : forall r m, NoDup (keys m) -> NoDup (keys (remove r m)).
+Proof.
+  intros r m. induction m as [|[k q] t IH]; cbn [remove keys map fst]; intro Hnd; [constructor|].
+  inversion Hnd as [|? ? Hnotin Hnd']; subst.
+  destruct (N.eqb r k); cbn [keys map fst]; [exact (IH Hnd')|].
+  constructor; [|exact (IH Hnd')]. intro H. apply Hnotin. exact (keys_remove_incl _ _ _ H).
+Qed.
+
+(* ------------------------------------------------------------------ values *)
+
+Section ValInd.
+  Variable P : val -> Prop.
+  Hypothesis Hres : forall r, P (VRes r).
+  Hypothesis Htup : forall fs, Forall P fs -> P (VTuple fs).
+  Hypothesis Hfun : forall cs, Forall P cs -> P (VFun cs).
+  Hypothesis Hoth : P VOther.
+  Fixpoint val_ind' (v : val) : P v :=
+    match v with
+    | VRes r => Hres r
+    | VTuple fs => Htup fs ((fix go (l : list val) : Forall P l :=
+                               match l with [] => Forall_nil P | x :: t => Forall_cons x (val_ind' x) (go t) end) fs)
+    | VFun cs => Hfun cs ((fix go (l : list val) : Forall P l :=
+                             match l with [] => Forall_nil P | x :: t => Forall_cons x (val_ind' x) (go t) end) cs)
+    | VOther => Hoth
+    end.
+End ValInd.
+
+(* r occurs in v at some depth, below tuples and closures *)
+Inductive carries (r : rid) : val -> Prop :=
+| carries_res : carries r (VRes r)
+| carries_tuple : forall fs f, In f fs -> carries r f -> carries r (VTuple fs)
+| carries_fun : forall cs c, In c cs -> carries r c -> carries r (VFun cs).
+
+Lemma carries_iff : forall r v, carries r v <-> In r (rids_of v).
+Proof.
+  intros r v. induction v as [r'|fs IH|cs IH|] using val_ind'; cbn [rids_of].
+  - split; [intro H; inversion H; left; reflexivity|intros [H|[]]; subst; constructor].
+  - rewrite in_flat_map. split.
+    + intro H. inversion H as [|? f Hin Hc|]; subst. exists f. split; [exact Hin|].
+      rewrite Forall_forall in IH. apply (IH f Hin). exact Hc.
+    + intros [f [Hin Hr]]. apply carries_tuple with f; [exact Hin|].
+      rewrite Forall_forall in IH. apply (IH f Hin). exact Hr.
+  - rewrite in_flat_map. split.
+    + intro H. inversion H as [| |? c Hin Hc]; subst. exists c. split; [exact Hin|].
+      rewrite Forall_forall in IH. apply (IH c Hin). exact Hc.
+    + intros [c [Hin Hr]]. apply carries_fun with c; [exact Hin|].
+      rewrite Forall_forall in IH. apply (IH c Hin). exact Hr.
+  - split; [intro H; inversion H|intros []].
+Qed.
+
+Definition insert_all (rs : list rid) (p : pid) (m : omap) : omap :=
+  fold_left (fun m r => insert r p m) rs m.
+
+Lemma transfer_rids : forall v p m, transfer v p m = insert_all (rids_of v) p m.
+Proof.
+  intros v p. induction v as [r|fs IH|cs IH|] using val_ind'; intro m; cbn [transfer rids_of]; try reflexivity.
+  - revert m. induction fs as [|f t IHt]; intro m; cbn [fold_left flat_map]; [reflexivity|].
+    inversion IH as [|? ? Hf Ht]; subst. unfold insert_all. rewrite fold_left_app.
+    fold (insert_all (rids_of f) p m). rewrite <- Hf. exact (IHt Ht _).
+  - revert m. induction cs as [|c t IHt]; intro m; cbn [fold_left flat_map]; [reflexivity|].
+    inversion IH as [|? ? Hc Ht]; subst. unfold insert_all. rewrite fold_left_app.
+    fold (insert_all (rids_of c) p m). rewrite <- Hc. exact (IHt Ht _).
+Qed.
+
+Lemma transfer_all_rids : forall vs p m, transfer_all vs p m = insert_all (flat_map rids_of vs) p m.
+Proof.
+  intros vs p. induction vs as [|v t IH]; intro m; cbn [transfer_all fold_left flat_map]; [reflexivity|].
+  unfold insert_all. rewrite fold_left_app. fold (insert_all (rids_of v) p m).
+  rewrite <- transfer_rids. exact (IH _).
+Qed.
+
+Lemma lookup_insert_all_notin : forall rs p m r, ~ In r rs -> lookup r (insert_all rs p m) = lookup r m.
+Proof.
+  intros rs p. induction rs as [|a t IH]; intros m r Hn; cbn [insert_all fold_left]; [reflexivity|].
+  fold (insert_all t p (insert a p m)). rewrite IH by (intro H; apply Hn; right; exact H).
+  apply lookup_insert_neq. intro H. apply Hn. left. symmetry. exact H.
+Qed.
+
+Lemma lookup_insert_all_in : forall rs p m r, In r rs -> lookup r (insert_all rs p m) = Some p.
+Proof.
+  intros rs p. induction rs as [|a t IH]; intros m r Hin; [destruct Hin|].
+  cbn [insert_all fold_left]. fold (insert_all t p (insert a p m)).
+  destruct (in_dec N.eq_dec r t) as [Ht|Ht]; [exact (IH _ _ Ht)|].
+  rewrite lookup_insert_all_notin by exact Ht.
+  destruct Hin as [->|Hin]; [apply lookup_insert_eq|contradiction].
+Qed.
+
+Lemma nodup_insert_all : forall rs p m, NoDup (keys m) -> NoDup (keys (insert_all rs p m)).
+Proof.
+  intros rs p. induction rs as [|a t IH]; intros m H; cbn [insert_all fold_left]; [exact H|].
+  apply IH. apply nodup_insert. exact H.
+Qed.
+
+Lemma keys_insert_all : forall rs p m x, In x (keys (insert_all rs p m)) <-> In x rs \/ In x (keys m).
+Proof.
+  intros rs p. induction rs as [|a t IH]; intros m x; cbn [insert_all fold_left In]; [tauto|].
+  fold (insert_all t p (insert a p m)). rewrite IH, keys_insert. intuition congruence.
+Qed.
+
+(* ------------------------------------------------------------------ cleanup *)
+
+Definition remove_all (rs : list rid) (m : omap) : omap := fold_left (fun m r => remove r m) rs m.
+
+Lemma lookup_remove_none : forall a m r, lookup r m = None -> lookup r (remove a m) = None.
+Proof.
+  intros a m r H. destruct (N.eq_dec r a) as [->|Hne]; [apply lookup_remove_eq|].
+  rewrite lookup_remove_neq by exact Hne. exact H.
+Qed.
+
+Lemma lookup_remove_all_none : forall rs m r, lookup r m = None -> lookup r (remove_all rs m) = None.
+Proof.
+  intros rs. induction rs as [|a t IH]; intros m r H; cbn [remove_all fold_left]; [exact H|].
+  apply IH. apply lookup_remove_none. exact H.
+Qed.
+
+Lemma lookup_remove_all_in : forall rs m r, In r rs -> lookup r (remove_all rs m) = None.
+Proof.
+  intros rs. induction rs as [|a t IH]; intros m r Hin; [destruct Hin|].
+  cbn [remove_all fold_left]. destruct Hin as [->|Hin].
+  - apply lookup_remove_all_none. apply lookup_remove_eq.
+  - exact (IH _ _ Hin).
+Qed.
+
+Lemma nodup_app : forall (l1 l2 : list rid), NoDup l1 -> NoDup l2 ->
+  (forall x, In x l1 -> In x l2 -> False) -> NoDup (l1 ++ l2).
+Proof.
+  intros l1. induction l1 as [|a t IH]; intros l2 H1 H2 Hd; cbn [app]; [exact H2|].
+  inversion H1 as [|? ? Hn H1']; subst. constructor.
+  - rewrite in_app_iff. intros [H|H]; [exact (Hn H)|]. exact (Hd a (or_introl eq_refl) H).
+  - apply IH; [exact H1'|exact H2|]. intros x Hx1 Hx2. exact (Hd x (or_intror Hx1) Hx2).
+Qed.
+
+Lemma lookup_remove_all_notin : forall rs m r, ~ In r rs -> lookup r (remove_all rs m) = lookup r m.
+Proof.
+  intros rs. induction rs as [|a t IH]; intros m r Hn; cbn [remove_all fold_left]; [reflexivity|].
+  fold (remove_all t (remove a m)). rewrite IH by (intro H; apply Hn; right; exact H).
+  apply lookup_remove_neq. intro H. apply Hn. left. symmetry. exact H.
+Qed.
+
+Lemma nodup_remove_all : forall rs m, NoDup (keys m) -> NoDup (keys (remove_all rs m)).
+Proof.
+  intros rs. induction rs as [|a t IH]; intros m H; cbn [remove_all fold_left]; [exact H|].
+  apply IH. apply nodup_remove. exact H.
+Qed.
+
+Lemma in_owned_by : forall p m r, In r (owned_by p m) <-> In (r, p) m.
+Proof.
+  intros p m r. unfold owned_by. rewrite in_map_iff. split.
+  - intros [[r' q] [Hfst Hin]]. cbn [fst] in Hfst. subst r'. apply filter_In in Hin.
+    destruct Hin as [Hin Heq]. cbn [snd] in Heq. apply N.eqb_eq in Heq. subst q. exact Hin.
+  - intro Hin. exists (r, p). split; [reflexivity|]. apply filter_In. split; [exact Hin|].
+    cbn [snd]. apply N.eqb_refl.
+Qed.
+
+Lemma owned_by_lookup : forall p m r, NoDup (keys m) -> (In r (owned_by p m) <-> lookup r m = Some p).
+Proof.
+  intros p m r Hnd. rewrite in_owned_by. split; [apply in_lookup; exact Hnd|apply lookup_some_in].
+Qed.
+
+Lemma nodup_owned_by : forall p m, NoDup (keys m) -> NoDup (owned_by p m).
+Proof.
+  intros p m. unfold owned_by, keys. induction m as [|[k q] t IH]; cbn [map fst filter snd]; intro Hnd; [constructor|].
+  inversion Hnd as [|? ? Hnotin Hnd']; subst. destruct (N.eqb q p); cbn [map fst]; [|exact (IH Hnd')].
+  constructor; [|exact (IH Hnd')]. intro H. apply Hnotin. apply in_map_iff in H.
+  destruct H as [x [Hx Hin]]. apply filter_In in Hin. destruct Hin as [Hin _].
+  apply in_map_iff. exists x. split; [exact Hx|exact Hin].
+Qed.
+
+Definition inv (s : state) : Prop := NoDup (keys (owner s)).
+
+Lemma cleanup_owner : forall s p, owner (cleanup s p) = remove_all (owned_by p (owner s)) (owner s).
+Proof. reflexivity. Qed.
+
+Lemma cleanup_log : forall s p, log (cleanup s p) = log s ++ map CClose (owned_by p (owner s)).
+Proof. reflexivity. Qed.
+
+Lemma cleanup_inv : forall s p, inv s -> inv (cleanup s p).
+Proof. intros s p H. unfold inv. rewrite cleanup_owner. apply nodup_remove_all. exact H. Qed.
+
+(* cleanup of p: p owns nothing afterwards, every other binding is untouched *)
+Lemma lookup_cleanup : forall s p r, inv s ->
+  lookup r (owner (cleanup s p)) = match lookup r (owner s) with
+                                   | Some q => if N.eqb q p then None else Some q
+                                   | None => None
+                                   end.
+Proof.
+  intros s p r Hinv. rewrite cleanup_owner.
+  destruct (in_dec N.eq_dec r (owned_by p (owner s))) as [Hin|Hn].
+  - rewrite lookup_remove_all_in by exact Hin. apply (owned_by_lookup _ _ _ Hinv) in Hin.
+    rewrite Hin, N.eqb_refl. reflexivity.
+  - rewrite lookup_remove_all_notin by exact Hn. destruct (lookup r (owner s)) as [q|] eqn:E; [|reflexivity].
+    destruct (N.eqb q p) eqn:Eq; [|reflexivity]. apply N.eqb_eq in Eq. subst q.
+    exfalso. apply Hn. apply (owned_by_lookup _ _ _ Hinv). exact E.
+Qed.
+
+Lemma results_inv : forall done s, inv s -> inv (handle_process_results s done).
+Proof.
+  intros done. induction done as [|p t IH]; intros s H; cbn [handle_process_results fold_left]; [exact H|].
+  apply IH. apply cleanup_inv. exact H.
+Qed.
+
+Lemma results_dead : forall done s, dead (handle_process_results s done) = dead s.
+Proof.
+  intros done. induction done as [|p t IH]; intro s; cbn [handle_process_results fold_left]; [reflexivity|].
+  unfold handle_process_results in IH. rewrite IH. reflexivity.
+Qed.
+
+Lemma results_next_pid : forall done s, next_pid (handle_process_results s done) = next_pid s.
+Proof.
+  intros done. induction done as [|p t IH]; intro s; cbn [handle_process_results fold_left]; [reflexivity|].
+  unfold handle_process_results in IH. rewrite IH. reflexivity.
+Qed.
+
+(* after handling ProcessResults done: bindings to reported processes are gone, others untouched *)
+Lemma lookup_results : forall done s r, inv s ->
+  lookup r (owner (handle_process_results s done)) =
+  match lookup r (owner s) with
+  | Some q => if existsb (N.eqb q) done then None else Some q
+  | None => None
+  end.
+Proof.
+  intros done. induction done as [|p t IH]; intros s r Hinv; cbn [handle_process_results fold_left existsb].
+  - destruct (lookup r (owner s)); reflexivity.
+  - unfold handle_process_results in IH. rewrite (IH (cleanup s p) r (cleanup_inv _ _ Hinv)).
+    rewrite (lookup_cleanup s p r Hinv). destruct (lookup r (owner s)) as [q|]; [|reflexivity].
+    destruct (N.eqb q p) eqn:E; cbn [orb]; reflexivity.
+Qed.
+
+Lemma existsb_eqb_in : forall q l, existsb (N.eqb q) l = true <-> In q l.
+Proof.
+  intros q l. rewrite existsb_exists. split.
+  - intros [x [Hin Heq]]. apply N.eqb_eq in Heq. subst x. exact Hin.
+  - intro Hin. exists q. split; [exact Hin|apply N.eqb_refl].
+Qed.
+
+(* the calls made by handle_process_results: only closes, each of a resource owned (before the
+   event) by one of the reported processes; and all of those *)
+Lemma results_log : forall done s, inv s ->
+  exists rs, log (handle_process_results s done) = log s ++ map CClose rs /\
+             (forall r, In r rs <-> exists p, In p done /\ lookup r (owner s) = Some p) /\
+             NoDup rs.
+Proof.
+  intros done. induction done as [|p t IH]; intros s Hinv; cbn [handle_process_results fold_left].
+  - exists []. split; [rewrite app_nil_r; reflexivity|]. split; [|constructor].
+    intro r. split; [intros []|intros [p [[] _]]].
+  - destruct (IH (cleanup s p) (cleanup_inv _ _ Hinv)) as [rs [Hlog [Hrs Hnd]]].
+    exists (owned_by p (owner s) ++ rs). split; [|split].
+    + unfold handle_process_results in Hlog. rewrite Hlog, cleanup_log, map_app, app_assoc. reflexivity.
+    + intro r. rewrite in_app_iff, Hrs, (owned_by_lookup _ _ _ Hinv). split.
+      * intros [H|[q [Hq Hl]]].
+        -- exists p. split; [left; reflexivity|exact H].
+        -- rewrite (lookup_cleanup s p r Hinv) in Hl. destruct (lookup r (owner s)) as [o|]; [|discriminate].
+           destruct (N.eqb o p); [discriminate|]. exists q. split; [right; exact Hq|]. exact Hl.
+      * intros [q [[Hq|Hq] Hl]].
+        -- subst q. left. exact Hl.
+        -- destruct (N.eq_dec q p) as [->|Hne]; [left; exact Hl|]. right. exists q. split; [exact Hq|].
+           rewrite (lookup_cleanup s p r Hinv), Hl. apply N.eqb_neq in Hne. rewrite Hne. reflexivity.
+    + apply nodup_app; [apply nodup_owned_by; exact Hinv|exact Hnd|].
+      intros r Hin1 Hin2. apply (owned_by_lookup _ _ _ Hinv) in Hin1. apply Hrs in Hin2.
+      destruct Hin2 as [q [_ Hl]]. rewrite (lookup_cleanup s p r Hinv), Hin1, N.eqb_refl in Hl. discriminate.
+Qed.
+
+(* ------------------------------------------------------------------ one step, characterised *)
+
+Lemma memb_in : forall r l, memb r l = true <-> In r l.
+Proof. intros r l. apply existsb_eqb_in. Qed.
+
+Lemma memb_notin : forall r l, memb r l = false <-> ~ In r l.
+Proof.
+  intros r l. rewrite <- memb_in. destruct (memb r l).
+  - split; [discriminate|]. intro H. exfalso. apply H. reflexivity.
+  - split; [intros _ H; discriminate H|reflexivity].
+Qed.
+
+Lemma lookup_insert : forall r r' p m, lookup r (insert r' p m) = if N.eqb r r' then Some p else lookup r m.
+Proof.
+  intros r r' p m. destruct (N.eqb r r') eqn:E.
+  - apply N.eqb_eq in E. subst r'. apply lookup_insert_eq.
+  - apply N.eqb_neq in E. apply lookup_insert_neq. exact E.
+Qed.
+
+Lemma lookup_insert_all : forall rs p m r,
+  lookup r (insert_all rs p m) = if memb r rs then Some p else lookup r m.
+Proof.
+  intros rs p m r. destruct (memb r rs) eqn:E.
+  - apply memb_in in E. apply lookup_insert_all_in. exact E.
+  - apply memb_notin in E. apply lookup_insert_all_notin. exact E.
+Qed.
+
+(* environment.rs:1703-1714: the request is refused without touching the backend *)
+Definition deniedb (s : state) (p : pid) (e : effect) : bool :=
+  match resource_id e with
+  | Some r => match lookup r (owner s) with
+              | Some o => negb (N.eqb o p)
+              | None => false
+              end
+  | None => false
+  end.
+
+Lemma effect_request_unfold : forall s p e a,
+  handle_effect_request s p e a =
+  if deniedb s p e then s
+  else
+    let s1 := mkState (owner s) (dead s) (pending s) (next_pid s) (log s ++ [CExec p e]) in
+    match a with
+    | ANow res => handle_effect_completion s1 p res
+    | AAsync => mkState (owner s1) (dead s1) (p :: pending s1) (next_pid s1) (log s1)
+    | AFail => s1
+    end.
+Proof. reflexivity. Qed.
+
+Lemma completion_owner : forall s p res r,
+  lookup r (owner (handle_effect_completion s p res)) =
+  if memb r (result_rid res) then Some p else lookup r (owner s).
+Proof.
+  intros s p res r. unfold handle_effect_completion. cbn [owner].
+  destruct res as [[r'| | |]|]; cbn [result_rid memb existsb orb]; try reflexivity.
+  rewrite lookup_insert. destruct (N.eqb r r'); reflexivity.
+Qed.
+
+Lemma completion_inv : forall s p res, inv s -> inv (handle_effect_completion s p res).
+Proof.
+  intros s p res H. unfold inv, handle_effect_completion. cbn [owner].
+  destruct res as [[r'| | |]|]; try exact H. apply nodup_insert. exact H.
+Qed.
+
+Lemma step_inv : forall s e, inv s -> inv (step s e).
+Proof.
+  intros s e H. destruct e as [p eff a|p res|c vals|sd t v|done|p|]; cbn [step].
+  - rewrite effect_request_unfold. destruct (deniedb s p eff); [exact H|].
+    destruct a as [res| |]; cbn zeta; try exact H. apply completion_inv. exact H.
+  - unfold inv. cbn [owner]. apply completion_inv. exact H.
+  - unfold inv, handle_spawn. cbn [owner]. rewrite transfer_all_rids. apply nodup_insert_all. exact H.
+  - unfold inv, handle_deliver. cbn [owner]. rewrite transfer_rids. apply nodup_insert_all. exact H.
+  - apply results_inv. exact H.
+  - exact H.
+  - exact H.
+Qed.
+
+Lemma init_inv : inv init.
+Proof. unfold inv. cbn. constructor. Qed.
+
+Lemma run_inv : forall h, inv (run h).
+Proof.
+  intro h. induction h as [|e h IH] using rev_ind; [exact init_inv|].
+  rewrite run_snoc. apply step_inv. exact IH.
+Qed.
+
+(* the owner of r after one step *)
+Lemma step_owner : forall s e r, inv s ->
+  lookup r (owner (step s e)) =
+  match e with
+  | EEffect p eff a =>
+      if deniedb s p eff then lookup r (owner s)
+      else if memb r (issued_by e) then Some p else lookup r (owner s)
+  | EComplete p res => if memb r (issued_by e) then Some p else lookup r (owner s)
+  | ESend _ t v => if memb r (transferred e) then Some t else lookup r (owner s)
+  | ESpawn _ vals => if memb r (transferred e) then Some (next_pid s) else lookup r (owner s)
+  | EResults done => match lookup r (owner s) with
+                     | Some q => if existsb (N.eqb q) done then None else Some q
+                     | None => None
+                     end
+  | ETerminate _ | EOther => lookup r (owner s)
+  end.
+Proof.
+  intros s e r Hinv. destruct e as [p eff a|p res|c vals|sd t v|done|p|]; cbn [step]; try reflexivity.
+  - rewrite effect_request_unfold. destruct (deniedb s p eff); [reflexivity|].
+    destruct a as [res| |]; cbn zeta; cbn [issued_by memb existsb]; try reflexivity.
+    rewrite completion_owner. reflexivity.
+  - cbn [owner issued_by]. apply completion_owner.
+  - unfold handle_spawn. cbn [owner transferred]. rewrite transfer_all_rids. apply lookup_insert_all.
+  - unfold handle_deliver. cbn [owner transferred]. rewrite transfer_rids. apply lookup_insert_all.
+  - apply lookup_results. exact Hinv.
+Qed.
+
+Lemma skipn_app_exact : forall (A : Type) (a l : list A), skipn (length a) (a ++ l) = l.
+Proof. intros A a l. induction a as [|x t IH]; cbn [length app skipn]; [reflexivity|exact IH]. Qed.
+
+(* the backend calls made by one step *)
+Lemma step_calls : forall s e, inv s ->
+  log (step s e) = log s ++ new_calls s e /\
+  match e with
+  | EEffect p eff a => new_calls s e = if deniedb s p eff then [] else [CExec p eff]
+  | EResults done => exists rs, new_calls s e = map CClose rs /\
+                                (forall r, In r rs <-> exists p, In p done /\ lookup r (owner s) = Some p) /\
+                                NoDup rs
+  | _ => new_calls s e = []
+  end.
+Proof.
+  intros s e Hinv.
+  assert (Hgen : forall l, log (step s e) = log s ++ l -> new_calls s e = l).
+  { intros l Hl. unfold new_calls. rewrite Hl. apply skipn_app_exact. }
+  destruct e as [p eff a|p res|c vals|sd t v|done|p|].
+  - assert (Hl : log (step s (EEffect p eff a)) = log s ++ (if deniedb s p eff then [] else [CExec p eff])).
+    { cbn [step]. rewrite effect_request_unfold. destruct (deniedb s p eff); [rewrite app_nil_r; reflexivity|].
+      destruct a as [res| |]; cbn zeta; reflexivity. }
+    rewrite (Hgen _ Hl). split; [exact Hl|reflexivity].
+  - assert (Hl : log (step s (EComplete p res)) = log s ++ []) by (rewrite app_nil_r; reflexivity).
+    rewrite (Hgen _ Hl). split; [exact Hl|reflexivity].
+  - assert (Hl : log (step s (ESpawn c vals)) = log s ++ []) by (rewrite app_nil_r; reflexivity).
+    rewrite (Hgen _ Hl). split; [exact Hl|reflexivity].
+  - assert (Hl : log (step s (ESend sd t v)) = log s ++ []) by (rewrite app_nil_r; reflexivity).
+    rewrite (Hgen _ Hl). split; [exact Hl|reflexivity].
+  - destruct (results_log done s Hinv) as [rs [Hl [Hrs Hnd]]].
+    cbn [step]. rewrite (Hgen _ Hl). split; [exact Hl|]. exists rs. split; [reflexivity|]. split; assumption.
+  - assert (Hl : log (step s (ETerminate p)) = log s ++ []) by (rewrite app_nil_r; reflexivity).
+    rewrite (Hgen _ Hl). split; [exact Hl|reflexivity].
+  - assert (Hl : log (step s EOther) = log s ++ []) by (rewrite app_nil_r; reflexivity).
+    rewrite (Hgen _ Hl). split; [exact Hl|reflexivity].
+Qed.
+
+Lemma log_extends : forall s e, inv s -> log (step s e) = log s ++ new_calls s e.
+Proof. intros s e H. exact (proj1 (step_calls s e H)). Qed.
+
+Lemma step_dead : forall s e,
+  dead (step s e) = match e with ETerminate p => p :: dead s | _ => dead s end.
+Proof.
+  intros s e. destruct e as [p eff a|p res|c vals|sd t v|done|p|]; cbn [step]; try reflexivity.
+  - rewrite effect_request_unfold. destruct (deniedb s p eff); [reflexivity|].
+    destruct a as [res| |]; reflexivity.
+  - apply results_dead.
+Qed.
+
+Lemma dead_iff_terminated : forall h p, In p (dead (run h)) <-> In (ETerminate p) h.
+Proof.
+  intros h p. induction h as [|e h IH] using rev_ind.
+  - cbn. tauto.
+  - rewrite run_snoc, step_dead, in_app_iff. cbn [In].
+    destruct e; try (rewrite IH; split; [intro H; left; exact H|intros [H|[H|[]]]; [exact H|discriminate H]]).
+    cbn [In]. rewrite IH. split.
+    + intros [H|H]; [right; left; subst; reflexivity|left; exact H].
+    + intros [H|[H|[]]]; [right; exact H|left; injection H as ->; reflexivity].
+Qed.
